@@ -12,6 +12,7 @@ from .. import install, refs, gen, reach
 from ..install import ctx as _ctx
 from .c10 import rc_profile, PROFILES
 
+REPO_TESTS_UNDER_CONTRACTS = True
 RULE = ('cases = (order 1..16, real/complex, |k| profile in {small, uniform, near 0.98, alternating, '
         'mixed}, r0 scale); each case drives all six ac/poly/rc converters, LAR/IS and LSF (real) and '
         'their compositions; non-trivial when order >= 2; distinct = distinct descriptor')
